@@ -8,6 +8,7 @@ import AnyVecModel.Proofs.KernelCtor
 import AnyVecModel.Proofs.KernelTempDrop
 import AnyVecModel.Proofs.KernelDrainDrop
 import AnyVecModel.Props.Hist
+import AnyVecModel.Props.Refine
 namespace AnyVec
 namespace C07
 open World
@@ -156,6 +157,26 @@ theorem skipped_destructors_are_the_source (w : World) (h : Handle) (d : VecSt) 
       KernelTie.runCmds { v := it.v, typed := it.typed }
         (Gen.Kernel.drain_drop_cmds it.index it.end_ it.start it.end0 it.origLen) :=
   ⟨KernelTie.temp_drop_tie w h d hv hl, KernelTie.drain_drop_tie it⟩
+
+/-! ### forgetting inside whole histories (Props/Refine.lean) -/
+
+/-- **forgetting only leaks, anywhere in a history**: mixed in any order with every other operation of the refinement,
+`mem::forget` of the handle of `pop()` / `remove(i)` / `swap_remove(i)` or of an untouched `drain(a..b)` leaves the vector
+showing exactly the items before the place the operation started at (`take (len-1)`, `take i`, `take a`; nothing when the
+call itself was refused) - nothing is destroyed, nothing is duplicated, the capacity is untouched, and the history goes on
+from there like on the abstract vector. -/
+theorem forgetting_only_leaks_in_histories {bg : Nat → Option VecSt} (cfg : Cfg) (v ty : Nat) (ops : List Refine.VOp)
+    (w : World) (s : Refine.Spec) (h : Refine.Rel bg v ty w s) (hall : ∀ op ∈ ops, op.Allowed s.fixed) :
+    ∃ s', Refine.Spec.Steps s ops s' ∧ Refine.Rel bg v ty (Refine.runOps cfg v ty w ops) s' :=
+  Refine.history_refines cfg v ty ops w s h hall
+
+/-- what the abstract vector does on a forgotten `remove(i)` handle: exactly the prefix stays -/
+theorem forgotten_remove_keeps_prefix (s s' : Refine.Spec) (i : Nat) (hi : i < s.items.length)
+    (h : Refine.Spec.Step s (.removeForget i) s') :
+    s'.items = s.items.take i ∧ s'.cap = s.cap ∧ s'.next = s.next := by
+  cases h with
+  | removeForget _ _ => exact ⟨rfl, rfl, rfl⟩
+  | removeForgetOut _ hle => omega
 
 end C07
 end AnyVec
